@@ -1,5 +1,5 @@
 (* Pinned statements for C17: a changed statement or a new axiom fails the check. *)
-From SwimV Require Import Model.Voter Proofs.VoterProofs Props.C17.
+From SwimV Require Import Model.VoterWake Proofs.VoterProofs Proofs.VoterWakeProofs Props.C17.
 Check (C17_reachable_invariant) : (forall n sc, 2 <= n -> Inv (exec (init n) sc)).
 Print Assumptions C17_reachable_invariant.
 Check (C17_stop_iff_all_voting) : (forall s, Inv s -> (receiver_ready s = true <-> forall i, i < n_parties s -> voted (get_voter s i) = true)).
@@ -24,3 +24,17 @@ Check (C17_rescind_loop_progress) : (forall s i cur, loaded (get_voter s i) = So
 Print Assumptions C17_rescind_loop_progress.
 Check (C17_api_reachable_invariant) : (forall n ops, 2 <= n -> Inv (run_state (init n) ops)).
 Print Assumptions C17_api_reachable_invariant.
+Check (C17_no_lost_wakeup) : (forall n sc, 2 <= n -> lost_wakeup (wexec (winit n) sc) = false).
+Print Assumptions C17_no_lost_wakeup.
+Check (C17_owed_wake_notifies) : (forall w, WInv w -> all_set (shared (core w)) = true -> phase w = RParked -> woken w = false -> exists i, mem i (pend w) = true /\ woken (wstep w (WWake i)) = true).
+Print Assumptions C17_owed_wake_notifies.
+Check (C17_poll_after_unanimity_is_ready) : (forall w, all_set (shared (core w)) = true -> phase w = RParked \/ phase w = RIdle -> phase (wstep w WLoad1) = RDone).
+Print Assumptions C17_poll_after_unanimity_is_ready.
+Check (C17_wake_only_at_unanimity) : (forall n sc, 2 <= n -> pend (wexec (winit n) sc) <> [] -> receiver_ready (core (wexec (winit n) sc)) = true).
+Print Assumptions C17_wake_only_at_unanimity.
+Check (C17_api_parked_receiver_is_woken) : (forall n ops, 2 <= n -> let w := wapi_state (winit n) ops in receiver_ready (core w) = true -> phase w = RParked -> woken w = true).
+Print Assumptions C17_api_parked_receiver_is_woken.
+Check (C17_wake_layer_conservative) : (forall n ops, 2 <= n -> core (wapi_state (winit n) ops) = run_state (init n) ops).
+Print Assumptions C17_wake_layer_conservative.
+Check (C17_owed_wake_witness) : (let w := wexec (winit 3) [WLoad1; WRegister; WLoad2; WV 0 MVote; WV 1 MVote; WV 2 MDrop] in WInv w /\ all_set (shared (core w)) = true /\ phase w = RParked /\ woken w = false /\ pend w = [2]).
+Print Assumptions C17_owed_wake_witness.
